@@ -44,6 +44,8 @@ D = {
  "C11-B": ("C11", "jwt_base64uri_decode rewritten to decode in 256-character chunks; a failing later chunk is taken for padding", "a text longer than 256 characters whose first foreign byte is at offset >= 256 (partially decoded)"),
  "C12-A": ("C12", "a failed jwt_set_crypto_ops(_t) falls back to the first compiled-in provider", "an unknown provider name / id while GnuTLS is selected"),
  "C12-B": ("C12", "GnuTLS verify caches the imported public key by jwk_item_t address (thread-local, never invalidated)", "key rotation: verify, jwks_free, load another key that lands on the same address, verify"),
+ "C12-C": ("C12", "GnuTLS ECDSA verify computes r.size = s.size = sig_len / 2 (rounds down)", "an ES* token whose signature is a valid r||s plus ONE extra octet: GnuTLS accepts, OpenSSL rejects"),
+ "C12-D": ("C12", "same idea as C12-A: a failed jwt_set_crypto_ops() falls back to the first compiled-in provider", "an unknown provider name while GnuTLS is selected"),
  "C13-A": ("C13", "jwt_checker_verify validates the callback's key/alg with jwt_checker_setkey (which stores them) instead of __setkey_check", "a keyless checker whose callback selects a key for one token and leaves the config alone for the next"),
  "C13-B": ("C13", "jwt_builder_generate: callback block ends in 'if (__cmd->error) return NULL' (stale flag)", "a builder with a callback, a failed generate whose error was not cleared, then a generate that should succeed"),
  "C14-A": ("C14", "jwt_checker_verify only resets the flag on success (message not cleared)", "a failure, then a success on the same checker without error_clear: ret 0, flag 0, stale message"),
@@ -96,6 +98,10 @@ NOTES = {
  "C05-D": "Reported under C10 (as C10-B / C05-B).",
  "C04-D": "Reported under C06 (the flag handed to json_loads is part of jwt_base64uri_decode_to_json's contract, listed under C06; C04's statement names it, its unit list does not include that unit).",
  "C20-D": "Reported under C08 (completeness of import); the C20 check is silent (the tools' units do not import keys).",
+ "C02-D": "First MISSED: the tool environment did not look at the algorithm handed to jwt_checker_setkey. It now records the algorithm named with -a (ghost g_user_alg, loop invariant over the option loop) and the setkey stub asserts that this is what is pinned.",
+ "C06-C": "First MISSED (leaks are not decided in general). The GnuTLS model now records the release of the DER signature it hands out and a C06 unit requires it to be released exactly once on every exit.",
+ "C02-C": "Caught by C02 (the TOP unit's admission clause); the C19 check is silent for the same reason as C19-B.",
+ "C09-D": "Reported under C09 and C01; the C14 list does not contain __check_key_bits' own unit (its clause 'a refusal carries a message' sits in the C09/C01 contracts).",
  "C05-B": "Reported under C10 (time-claim clauses carry the C10 label); the C05 check itself is silent.",
  "C06-B": "Reported under C14 (message handling clauses).",
  "C18-A": "Caught through the argument obligation of the HMAC model (a NULL output buffer is libcrypto's static buffer) and the frame of the provider entry.",
